@@ -3491,6 +3491,14 @@ def cli_main():
         path = os.path.join(root, 'definitions')
         include_dirs.append(path)
 
+    # validate the hex offset up front so that a bad value fails before any output file is written
+    hex_offset = None
+    if args.hex_offset:
+        try:
+            hex_offset = int(args.hex_offset, base=0)
+        except ValueError:
+            raise SystemExit('invalid hex offset: {}'.format(args.hex_offset))
+
     constants = {}
     labels = {}
     try:
@@ -3516,15 +3524,10 @@ def cli_main():
         out_bin.write(binary)
 
     # output an additional file in the Intel HEX format at the given offset
-    if args.hex_offset:
+    if hex_offset is not None:
         from intelhex import bin2hex
 
-        try:
-            offset = int(args.hex_offset, base=0)
-        except:
-            raise SystemExit('invalid hex offset: {}'.format(args.hex_offset))
-
-        bin2hex(args.output, args.output + '.hex', offset)
+        bin2hex(args.output, args.output + '.hex', hex_offset)
 
 
 if __name__ == '__main__':
